@@ -43,6 +43,7 @@ struct Config {
     int64_t clock_jump_ms = 0;    // magnitude of a jump (sign is drawn)
     int clock_step_max_ms = 2;    // per scheduling point the clock advances U[0,max] ms
     int step_cap = 20000;
+    bool post_op_points = true;   // scheduling point also right after lock / unlock / wait-return / signal (not only before)
     bool replay = false;          // follow `script` instead of drawing
     std::vector<Decision> script;
 };
